@@ -50,26 +50,45 @@ def structural_c18(chk, descs):
     return n_meth, n_ok, rand
 
 
+def _short_fn(fn):
+    short = fn
+    while re.search(r"<[^<>]*>", short):
+        short = re.sub(r"<[^<>]*>", "", short)
+    short = re.sub(r"\(.*$", "", short).strip()
+    parts = [x for x in short.split("::") if x and x != "Givaro"]
+    return "::".join(parts[-2:]) if parts else fn[:40]
+
+
 def tsan_reports(stderr):
-    """[(class under test, summary file:line, function, excluded?, text)]"""
+    """[(class under test, where, klass, excluded?, text, kind)] -- klass names the racing pair: for each of the two accesses the
+    innermost function of the library (first frame below /src/ of the repository) and whether it writes"""
     out = []
     cur = "?"
+    repo_mark = os.path.join(vf.REPO, "src") + "/"
     blocks = re.split(r"(?m)^(C18CLASS .*)$", stderr)
     for b in blocks:
         if b.startswith("C18CLASS "):
             cur = b[9:].strip()
             continue
         for rep in re.split(r"(?m)^=+\n", b):
-            if "ThreadSanitizer: data race" not in rep and "ThreadSanitizer: heap-use-after-free" not in rep and "ThreadSanitizer: double-free" not in rep:
+            if "WARNING: ThreadSanitizer:" not in rep:
                 continue
             m = re.search(r"SUMMARY: ThreadSanitizer: ([a-z\- ]+) (\S+?):(\d+)(?::\d+)? in (.*)", rep)
-            kind, f, line, fn = (m.group(1).strip(), os.path.basename(m.group(2)), m.group(3), m.group(4).strip()) if m else ("data race", "?", "0", "?")
-            short = re.sub(r"<[^<>]*>", "", fn)
-            while re.search(r"<[^<>]*>", short):
-                short = re.sub(r"<[^<>]*>", "", short)
-            short = re.sub(r"\(.*$", "", short).split("::")[-1].strip() or fn[:40]
+            kind, f, line = (m.group(1).strip(), os.path.basename(m.group(2)), m.group(3)) if m else ("data race", "?", "0")
+            # the two access stacks
+            acc = []
+            for hm in re.finditer(r"(?m)^  ((?:Previous )?(?:[Aa]tomic )?(?:[Ww]rite|[Rr]ead)) of size \d+ at \S+ by [^\n]*\n((?:    #\d+ [^\n]*\n)+)", rep):
+                w = "write" if "rite" in hm.group(1) else "read"
+                fn = None
+                for fl in hm.group(2).splitlines():
+                    fm = re.match(r"\s+#\d+ (.*?) (/\S+?):(\d+)", fl)
+                    if fm and (repo_mark in fm.group(2) or "/src/kernel/" in fm.group(2) or "/src/library/" in fm.group(2)):
+                        fn = _short_fn(fm.group(1))
+                        break
+                acc.append("%s-in:%s" % (w, fn or "?"))
+            klass = "|".join(sorted(set(acc))) or kind
             excl = any(k in rep for k in ALLOCATOR_MARKS)
-            out.append((cur, "%s:%s" % (f, line), "%s:%s" % (f, short), excl, rep[:3000], kind))
+            out.append((cur, "%s:%s" % (f, line), klass, excl, rep[:3000], kind))
     return out
 
 
@@ -144,16 +163,16 @@ def run_threads(chk, tier):
         chk.notes.append("ThreadSanitizer run problems: " + "; ".join(res["tsan_err"])[:300])
     seen = set()
     nexcl = 0
-    for cls, where, site, excl, text, kind in reports:
+    for cls, where, klass, excl, text, kind in reports:
         if excl:
             nexcl += 1
             continue
-        key = cls
+        key = (cls, klass)
         if key in seen:
             continue
         seen.add(key)
-        chk.fail_input("tsan:" + cls, site, {"class": cls, "where": where, "kind": kind, "threads": 3}, "no ThreadSanitizer report", text[:2500],
-                       "ThreadSanitizer build of harness/c18_threads.C: %s at %s" % (kind, where))
+        chk.fail_input("tsan:" + cls, klass, {"class": cls, "where": where, "kind": kind, "threads": 3}, "no ThreadSanitizer report", text[:2500],
+                       "ThreadSanitizer build of harness/c18_threads.C: %s at %s (%s)" % (kind, where, klass))
     chk.cov["tsan_classes_run"] = len(res.get("tsan_out", []))
     chk.cov["tsan_reports"] = len(reports)
     chk.cov["tsan_reports_in_excluded_allocator"] = nexcl
